@@ -4,8 +4,8 @@ package main
 // range loops summarised as quantifiers. Purely structural: blocks, branches, phis, provenance.
 
 import (
-	"go/constant"
 	"fmt"
+	"go/constant"
 	"go/token"
 	"go/types"
 	"sort"
@@ -168,7 +168,7 @@ type quantizer struct {
 	retDepth int
 	p        *Prog
 	nloops   int
-	elemVar  map[ssa.Value]string // loaded range element -> bound variable
+	elemVar  map[ssa.Value]string     // loaded range element -> bound variable
 	fnBind   map[ssa.Value]*fnBinding // function-valued parameter / free variable -> the closure bound to it by inlining
 	depth    int
 	cloDepth int
